@@ -99,7 +99,7 @@ def prove(run, cfg, budget_ms):
                     continue
                 t = time.time()
                 try:
-                    obs = ex.verify(c)
+                    obs = symexec.verify_contract(ex, c)
                 except symexec.OutOfSubset as e:
                     run.undecided.append({'fid': c.fid, 'why': f'out of subset: {e}'})
                     continue
@@ -159,6 +159,30 @@ def handle_failed(run, ob, r, baseline, per_fn):
           'solver': {'status': r['status'], 'backend': r['backend'], 'reason': r['reason'],
                      'vc_hash': r['hash']}}
     reproduced = False
+    if getattr(ob, 'mon', None) is not None:
+        # monitor obligation: finite-instantiation query (3 thread ids) for a candidate state, then
+        # a native replay with real threads
+        from . import solve as _solve
+        import z3 as _z3
+        spec = ob.mon['spec']
+        dom = (0, 1, 2, 3)
+        m = _solve.finite_refute(ob, dom=dom, timeout_ms=20000,
+                                 extra=[_z3.Or(*[ob.mon['tid'] == d for d in dom[1:]])])
+        rp['solver']['finite_instantiation'] = 'sat' if m is not None else 'no model'
+        if m is not None and hasattr(spec, 'model_to_replay'):
+            state = spec.model_to_replay(m, ob, dom)
+            if state is not None:
+                rp.update(kind='custom', replay_fn=spec.replay_fn, state=state, obligation_kind=ob.kind)
+                path = run.replay_path('cex')
+                json.dump(rp, open(path, 'w'), indent=1)
+                code, out, raw = native(['replay', path], timeout=120)
+                rp['native'] = out or {'raw': raw[-800:]}
+                json.dump(rp, open(path, 'w'), indent=1)
+                if out.get('reproduced'):
+                    run.violations.append({'fid': ob.fid, 'clause': ob.clause, 'kind': ob.kind,
+                                           'replay': path, 'note': out.get('detail', ''), 'input': True})
+                    return
+                rp['kind'] = ob.kind
     if r['status'] == 'sat' and r['cex'] and '_error' not in r['cex']:
         rp['inputs'] = jsonable(r['cex'])
         path = run.replay_path('cex')
@@ -369,7 +393,7 @@ def make_baseline():
                         continue
                     seen.add(c.fid)
                     try:
-                        obs = ex.verify(c)
+                        obs = symexec.verify_contract(ex, c)
                     except Exception as e:
                         log('skip', c.fid, e)
                         continue
